@@ -225,7 +225,12 @@ func sortedSchemaKeys(m map[schema.SchemaKey]*schema.BodySchema) []schema.Schema
 }
 
 func decodeSchemaKey(key schema.SchemaKey) (schema.DependencyKeys, error) {
-	var dk schema.DependencyKeys
-	err := json.Unmarshal([]byte(key), &dk)
-	return dk, err
+	// Only labels are decoded. Attribute dependent keys carry expression
+	// values (static cty values) which cannot be decoded via plain
+	// json.Unmarshal and would make decoding of the whole key fail.
+	var labelsOnly struct {
+		Labels []schema.LabelDependent `json:"labels,omitempty"`
+	}
+	err := json.Unmarshal([]byte(key), &labelsOnly)
+	return schema.DependencyKeys{Labels: labelsOnly.Labels}, err
 }
